@@ -1,6 +1,7 @@
 import DoltVerif.Model.Wire
 import DoltVerif.Model.Txn
-open DoltVerif DoltVerif.Txn DoltVerif.Wire
+import DoltVerif.Model.TxnIdx
+open DoltVerif DoltVerif.Txn DoltVerif.TxnIdx DoltVerif.Wire
 
 def cellStr : Cell → String
   | none => "N"
@@ -57,4 +58,51 @@ def stepLine (w : World) : List String → World × String
     | _, _ => (w, "bad-op")
   | _ => (w, "bad-op")
 
-def main : IO Unit := run World.init stepLine
+/-! ### C25: one table with secondary indexes -/
+
+def entryStr (e : List Cell) : String := ",".intercalate (e.map cellStr)
+
+def idxDumpStr (t : ITable) : String :=
+  if t.idx.isEmpty then "-" else
+  let named := t.idx.map (fun (d, es) => (d.name, ((es.map entryStr).toArray.qsort (· < ·)).toList))
+  let sorted := (named.toArray.qsort (fun a b => a.1 < b.1)).toList
+  "|".intercalate (sorted.map (fun (n, es) => n ++ "=" ++ ";".intercalate es))
+
+def iresStr : IRes → String
+  | .ok => "ok" | .dupKey => "dup-key" | .conflict => "conflict" | .noSuchIndex => "other"
+
+def parseColPfx (s : String) : Option (Nat × Nat) :=
+  match s.splitOn ":" with
+  | [c, p] => do pure (← c.toNat?, ← p.toNat?)
+  | _ => none
+
+def parseIOp : List String → Option IOp
+  | "xins" :: k :: cells => do pure (.ins (← k.toInt?) (← cells.mapM parseCell))
+  | ["xupd", k, c, v] => do pure (.upd (← k.toInt?) (← c.toNat?) (← parseCell v))
+  | ["xdel", k] => do pure (.del (← k.toInt?))
+  | ["xidx", name, u, cols] => do
+      let cps ← (cols.splitOn ",").mapM parseColPfx
+      pure (.createIndex { name := name, cols := cps.map (·.1), pfx := cps.map (·.2), unique := u == "1" })
+  | ["xdrop", name] => some (.dropIndex name)
+  | _ => none
+
+structure DState where
+  w : World
+  t : ITable
+
+def stepAll (st : DState) (ws : List String) : DState × String :=
+  match ws with
+  | ["xreset"] => ({ st with t := ⟨[], []⟩ }, "ok")
+  | w0 :: _ =>
+    if w0.startsWith "x" then
+      match parseIOp ws with
+      | some op =>
+        let (t', r) := applyIOp st.t op
+        ({ st with t := t' }, s!"{iresStr r} R={dumpStr t'.rows} I={idxDumpStr t'}")
+      | none => (st, "bad-op")
+    else
+      let (w', resp) := stepLine st.w ws
+      ({ st with w := w' }, resp)
+  | [] => (st, "bad-op")
+
+def main : IO Unit := run (⟨World.init, ⟨[], []⟩⟩ : DState) stepAll
